@@ -117,7 +117,8 @@ def faulty_case(draw):
     else:
       return {"spec": spec, "fault_state": f, "fault": kind, "bad_target": g, "reach": "dispatch",
               "start": draw(st.sampled_from(starts)), "host": draw(st.sampled_from(["plain", "instr", "queued"])),
-              "variant": draw(st.sampled_from(["none_search", "none_search_set"])), "via": via}
+              "variant": draw(st.sampled_from(["none_search", "none_search_set"])), "via": via,
+              "placement": draw(st.sampled_from(["target", "below"]))}
   if kind == "init_self":
     bad = f
   elif kind == "init_ancestor":
@@ -249,13 +250,19 @@ class C24(Prop):
       must_raise = True
     else:
       g = case["bad_target"]
-      spec["faults"] = {str(g): case["variant"]}
+      # the state that answers the probe with nothing: the init target itself, or (placement
+      # "below") the child of f on the way down to the target, the last one the drill-down asks
+      bad = g
+      if case.get("placement") == "below":
+        while spec["parent"][bad] != f:
+          bad = spec["parent"][bad]
+      spec["faults"] = {str(bad): case["variant"]}
       spec["init"][f] = g
       model.start(case["start"])
       rest = model.cur
       spec["react"][rest] = dict(spec["react"][rest])
       spec["react"][rest][ZS] = ["trans", f]
-      must_raise = False
+      must_raise = True
     rt = chartgen.build(spec, decorate=spec["spy"])
     chart = hsmcheck.make_host(case["host"])
     if kind == "none_else" and case["reach"] == "dispatch":
@@ -300,6 +307,7 @@ class C24(Prop):
                                 "for its exit event, by the climb out of the source's branch" if kind == "none_exit_climb" else
                                 "on the way to the transition target" if kind == "none_else" else
                                 "for the re-query after it declined the event" if kind == "none_after_decline" else
+                                "for the super-state probe, by the drill-down to an init target" if kind == "none_search_init_target" else
                                 "as the parent of the transition target, for the super-state probe",
                                 chart.state_name), "C24:silent")
 
